@@ -30,9 +30,12 @@ def budget(tier):
 
 
 def gen(R, tier):
-    kind = R.choice(['cut', 'cutw', 'levels', 'fragset', 'fragset', 'shared', 'multicut', 'explicit_h', 'explicit_h'])
+    kind = R.choice(['cut', 'cutw', 'levels', 'levels', 'fragset', 'fragset', 'shared', 'multicut', 'explicit_h', 'explicit_h'])
     if kind == 'cutw':
         case = resgen.gen_cut_string(R, tier, weights=True)
+    elif kind == 'levels' and R.chance(0.5):
+        # shared atoms at the atomistic level AND shared nodes at the coarse levels of one resolver
+        case = resgen.gen_cut_string(R, tier, min_frags=2, with_levels=R.choice([1, 1, 2]), shared_atoms=True)
     elif kind == 'explicit_h':
         from .c09 import gen_explicit_h
         case = gen_explicit_h(R, tier)
